@@ -135,6 +135,9 @@ type shape struct {
 	Keys   int  `json:"agent_keys"`
 	CSRs   int  `json:"csrs_per_key"`
 	NCerts int  `json:"certificates_per_csr"`
+	// Warm: an earlier successful run on the same agent left a generation of certificates,
+	// so that delivery has to list and remove them first (more agent operations to fault)
+	Warm bool `json:"earlier_generation_present"`
 }
 
 type faultRec struct {
@@ -178,6 +181,12 @@ func build(e *env, sh shape) (*wire.Agent, *tracker, *gsrig.Signer, func(), erro
 		inner = &stubHandler{ag: agent.NewClient(conn), nKeys: sh.Keys, nCSRs: sh.CSRs}
 		closeFn = func() { conn.Close(); ag.Close() }
 	}
+	if sh.Warm {
+		if werr, esc := gsrig.Run(param(), []gensign.Handler{inner}, &gsrig.Signer{Agent: ag, NCerts: sh.NCerts}); werr != nil || esc != "" {
+			return nil, nil, nil, closeFn, fmt.Errorf("warm-up run failed: %v %s", werr, esc)
+		}
+		ag.ResetLog()
+	}
 	return ag, &tracker{inner: inner, ag: ag}, signer, closeFn, nil
 }
 
@@ -187,7 +196,7 @@ func param() *csr.ReqParam {
 
 func main() {
 	ev.MainIsolated("C04", "fault_enumeration", 40*time.Minute, func(r *ev.Run) {
-		r.Rule("for every run shape within the bound (the real regular handler with the CA returning 1..3 certificates; stub handlers returning 1..K agent keys with 1..C CSRs each and 1..3 certificates per CSR, delivery through the real agent/ssh AgentKey) a fault-free pilot run counts the agent requests N and signer calls S; then ONE run per (request index i < N) x {failure reply, garbage reply, wrong-type reply, oversized frame, truncated frame, connection closed} and per (signer call j < S) x {error, panic}, plus a panic in each Handler method (Name, Authenticate, Generate) and in each AgentKey method (CSRs, AddCertsToAgent), an empty Generate result and a failing Generate. Oracle: the error kind must match the stage in which the pilot performed that operation (auth -> all-authentications-failed; generation -> CSR-generation / configuration / invalid-params; signer -> signer; delivery -> agent; panic -> panic); nil only if every CSR was signed and every returned certificate is in the agent; no certificate-bearing add frame for a key one of whose CSRs was not signed; no panic escapes Run. distinct_nontrivial = distinct (shape, fault kind, index) runs judged. exhaustive within the bound")
+		r.Rule("for every run shape within the bound (the real regular handler with the CA returning 1..3 certificates, on a fresh agent and on an agent that already holds an earlier generation (so that delivery lists and removes first); stub handlers returning 1..K agent keys with 1..C CSRs each and 1..3 certificates per CSR, delivery through the real agent/ssh AgentKey) a fault-free pilot run counts the agent requests N and signer calls S; then ONE run per (request index i < N) x {failure reply, garbage reply, wrong-type reply, oversized frame, truncated frame, connection closed} and per (signer call j < S) x {error, panic}, plus a panic in each Handler method (Name, Authenticate, Generate) and in each AgentKey method (CSRs, AddCertsToAgent), an empty Generate result and a failing Generate. Oracle: the error kind must match the stage in which the pilot performed that operation (auth -> all-authentications-failed; generation -> CSR-generation / configuration / invalid-params; signer -> signer; delivery -> agent; panic -> panic); nil only if every CSR was signed and every returned certificate is in the agent; no certificate-bearing add frame for a key one of whose CSRs was not signed; no panic escapes Run. distinct_nontrivial = distinct (shape, fault kind, index) runs judged. exhaustive within the bound")
 		r.Assume("single faults only", "a wrong-type reply may surface as the stage's kind or as the panic kind (the agent client library panics on it and Run recovers)")
 		r.Exhaustive(true)
 		gen.Pool()
@@ -202,7 +211,9 @@ func main() {
 		var shapes []shape
 		for nc := 1; nc <= 3; nc++ {
 			shapes = append(shapes, shape{Real: true, Keys: 1, CSRs: 1, NCerts: nc})
+			shapes = append(shapes, shape{Real: true, Keys: 1, CSRs: 1, NCerts: nc, Warm: true})
 		}
+		shapes = append(shapes, shape{Keys: 2, CSRs: 1, NCerts: 2, Warm: true}, shape{Keys: 1, CSRs: 2, NCerts: 1, Warm: true})
 		maxK := r.Pick(2, 3)
 		for k := 1; k <= maxK; k++ {
 			for cs := 1; cs <= maxK; cs++ {
